@@ -5,6 +5,7 @@ x scale-parameter alphabet (incl. 0 and negative) x sensitivity width, each exec
 the real chi error model and compared with ref.errors (+ complex-step gradients), and a
 normalisation part that integrates exp(chi's pointwise log-likelihood) over the
 measurable range by deterministic adaptive quadrature."""
+import copy
 import itertools
 
 import numpy as np
@@ -87,6 +88,17 @@ def w_density(case):
             'sub': 'repeat', 'message': 'log-likelihood differs when evaluated '
             'again after compute_sensitivities on the same arrays',
             'expected': got_tot, 'observed': again, 'behaviour': 'repeat'})
+    # outputs and observations as column arrays of shape (n, 1) (a data-frame
+    # column turned into an array): the same total
+    if np.isfinite(exp_tot) and not case.get('ints'):
+        col_tot = em.compute_log_likelihood(
+            params.copy(), ybar.reshape(-1, 1).copy(), y.reshape(-1, 1).copy())
+        n_tr += 1
+        if not tol.close(col_tot, exp_tot):
+            viol.append({'sub': 'column', 'message': 'compute_log_likelihood with '
+                         'outputs and observations of shape (n, 1) differs from the '
+                         'documented log-density', 'expected': exp_tot,
+                         'observed': col_tot, 'behaviour': 'column'})
     # results handed out earlier stay what they were when the model is evaluated
     # again on arrays of the same shape
     if np.isfinite(exp_tot) and not case.get('ints'):
@@ -266,6 +278,7 @@ def w_reduced(case):
     viol = []
     n_tr = 0
     obs = []
+    copies = []
     for step, op in enumerate(case['ops']):
         d = {names[i]: v for i, v in op}
         em.fix_parameters(d)
@@ -327,8 +340,41 @@ def w_reduced(case):
                              '-inf with one sensitivity per mechanistic and free '
                              'error parameter', 'expected': [-np.inf, p + len(free)],
                              'observed': [sb, list(np.asarray(gb).shape)]})
+        # whole-number free parameters handed over as integers (the fixed values
+        # are not whole numbers): the same density at the substituted vector
+        if free and fixed:
+            full_i = theta_full.copy()
+            full_i[free] = 1.0
+            e_i = float(np.sum(ref.pointwise(model, full_i, ybar, y)))
+            for arg_i in ([1] * len(free), np.ones(len(free), dtype=int)):
+                g_i = [em.compute_log_likelihood(arg_i, ybar, y),
+                       float(np.sum(em.compute_pointwise_ll(arg_i, ybar, y))),
+                       em.compute_sensitivities(arg_i, ybar, S, y)[0]]
+                n_tr += 3
+                if not all(tol.close(g_, e_i) for g_ in g_i):
+                    viol.append({'sub': 'int_free', 'step': step, 'message':
+                                 'reduced error model evaluated at integer-typed '
+                                 'free parameters is not the density at the '
+                                 'substituted vector', 'expected': e_i,
+                                 'observed': g_i, 'behaviour': 'int_free'})
+                    break
+        # a deep copy taken now keeps what is fixed now, whatever is fixed later
+        copies.append((copy.deepcopy(em), theta_full.copy(), list(free)))
         obs.append([sorted(fixed.items()), got_tot, sens])
         if viol:
+            break
+    for cp, th_cp, free_cp in copies[:-1]:
+        e_cp = float(np.sum(ref.pointwise(model, th_cp, ybar, y)))
+        g_cp = [cp.compute_log_likelihood(full[free_cp], ybar, y),
+                cp.compute_sensitivities(full[free_cp], ybar, S, y)[0]] \
+            if cp.n_parameters() == len(free_cp) else ['count', cp.n_parameters()]
+        n_tr += 2
+        if not all(isinstance(g_, float) or np.isscalar(g_) for g_ in g_cp) or \
+                not all(tol.close(g_, e_cp) for g_ in g_cp):
+            viol.append({'sub': 'copy_kept', 'message': 'a deep copy of the reduced '
+                         'error model taken earlier changed with later '
+                         'fix_parameters calls on the original', 'expected': e_cp,
+                         'observed': g_cp, 'behaviour': 'copy_kept'})
             break
     return {'transitions': n_tr, 'outcome': tol.rnd(obs), 'violations': viol}
 
